@@ -8,6 +8,8 @@ proved equal for all symbolic scales / factors / magnitudes."""
 
 from __future__ import annotations
 
+from fractions import Fraction
+
 import itertools
 import random
 
@@ -38,7 +40,7 @@ META = {
     "assumptions": ["hash_mode=mixed (unbounded symbolic numbers hash to a constant)"],
 }
 
-QUERIES = ["q:w->m", "q:base(w)", "q:parse(kkw)", "q:parse(Kw)", "q:compat(m)", "q:dim(w/s)"]
+QUERIES = ["q:w->m", "q:base(w)", "q:parse(kkw)", "q:parse(Kw)", "q:compat(m)", "q:dim(w/s)", "q:compact"]
 CHANGES = ["define", "enable:c1", "enable:c3", "enable:c4", "disable:1", "disable:all", "system:sysA", "system:sysB", "system:None", "other-registry"]
 
 
@@ -98,6 +100,10 @@ def _answers(eng, ureg, x, keep=None):
     ask("dim(w/s)", lambda: dict(ureg.get_dimensionality("w/s")))
     ask("format(w/s)", lambda: f"{ureg.Unit('w/s'):~P}|{ureg.Unit('kku'):D}")
     ask("compatible(m,s)", lambda: Qy(x, "m").is_compatible_with("s"))
+    # to_compact (concrete magnitude: the prefix choice needs a number), registers prefixed units
+    ask("compact(1500 w)", lambda: (lambda r: (r.magnitude, str(r.units)))(Qy(eng.num(1500), "w").to_compact()))
+    ask("compact(3/2000 m/s)", lambda: (lambda r: (r.magnitude, str(r.units)))(Qy(eng.num(Fraction(3, 2000)), "m/s").to_compact()))
+    ask("reduced(w*m/u)", lambda: (lambda r: (r.magnitude, str(r.units)))(Qy(x, "w*m/u").to_reduced_units()))
     if keep is not None:
         ask("kept.to(m)", lambda: keep["q"].to("m").magnitude)
         ask("kept.dimensionality", lambda: dict(keep["q"].dimensionality))
@@ -157,6 +163,11 @@ def h_sequence(eng, ops):
             ureg.parse_units("Kw")
             ureg.Quantity(x, "KU_").to("m")
             ureg.get_name("kkuus")
+        elif op == "q:compact":
+            ureg.Quantity(eng.num(1500), "w").to_compact()
+            ureg.Quantity(eng.num(Fraction(1, 2000)), "u").to_compact()
+            ureg.Quantity(x, "w*m/u").to_reduced_units()
+            format(ureg.Quantity(x, "kkw"), "~P")
         elif op == "q:compat(m)":
             ureg.get_compatible_units("m")
         elif op == "q:dim(w/s)":
